@@ -521,17 +521,37 @@ class Inliner:
                 decos = [ast.unparse(d) for d in fn.decorator_list]
                 if cls is not None and "staticmethod" not in decos and "classmethod" not in decos and fn.args.args:
                     selfname = fn.args.args[0].arg
+                nodes0 = list(ast.walk(fn))
+                lf0 = {x.name: x for x in nodes0 if isinstance(x, ast.FunctionDef) and x is not fn}
+                if not self.has_candidates(nodes0, cls, selfname, lf0):
+                    continue
                 try:
                     fn.body = self.process_block(fn.body, cls, selfname, {}, fn)
                 except RecursionError:
                     pass
                 # expression-like helpers inside comprehensions etc. of simple statements
-                for st in ast.walk(fn):
-                    if isinstance(st, (ast.Expr, ast.Assign, ast.AugAssign, ast.Return)) and getattr(st, "value", None) is not None:
-                        local_fns = {x.name: x for x in ast.walk(fn) if isinstance(x, ast.FunctionDef) and x is not fn}
-                        st.value = self.substitute_expressions(st.value, cls, selfname, local_fns)
+                nodes = list(ast.walk(fn))
+                local_fns = {x.name: x for x in nodes if isinstance(x, ast.FunctionDef) and x is not fn}
+                may_call = self.has_candidates(nodes, cls, selfname, local_fns)
+                if may_call:
+                    for st in nodes:
+                        if isinstance(st, (ast.Expr, ast.Assign, ast.AugAssign, ast.Return)) and getattr(st, "value", None) is not None:
+                            st.value = self.substitute_expressions(st.value, cls, selfname, local_fns)
                 # local functions that are no longer referenced disappear
-                self.drop_unused_local_functions(fn)
+                if local_fns:
+                    self.drop_unused_local_functions(fn)
+
+    def has_candidates(self, nodes, cls, selfname, local_fns):
+        """cheap pre-check: is there any call that could resolve to an inlinable helper at all?"""
+        for x in nodes:
+            if isinstance(x, ast.Call):
+                f = x.func
+                if isinstance(f, ast.Name) and f.id in local_fns:
+                    return True
+                if isinstance(f, ast.Attribute) and isinstance(f.value, ast.Name) and f.attr.startswith("_") and not f.attr.startswith("__"):
+                    if (selfname and f.value.id == selfname) or f.value.id in self.classes:
+                        return True
+        return False
 
     @staticmethod
     def drop_unused_local_functions(fn):
